@@ -10,7 +10,6 @@ import (
 	"os"
 	"path/filepath"
 	"strings"
-	"time"
 
 	"github.com/NethermindEth/juno/consensus/starknet"
 	"github.com/NethermindEth/juno/consensus/types/wal"
@@ -156,8 +155,8 @@ func (c *codecCtx) payloadCase(s codecSample, value []byte, what string) {
 	}
 	var model string
 	var derr error
-	if !lib.WithDeadline(60*time.Second, func() { model, derr = c.drv.Ask("decode " + hx) }) {
-		derr = fmt.Errorf("no answer within 60 s")
+	if !lib.WithDeadline(driverDeadline, func() { model, derr = c.drv.Ask("decode " + hx) }) {
+		derr = fmt.Errorf("no answer within %v", driverDeadline)
 	}
 	if derr != nil {
 		if !c.dead {
